@@ -537,7 +537,21 @@ func (g *Gen) Step() {
 			return
 		}
 		var t time.Time
-		switch r.Intn(5) {
+		var exact []time.Time
+		for _, d := range s.Dels {
+			if !d.Forwarded && !d.Msg.PubExact.IsZero() {
+				exact = append(exact, d.Msg.PubExact)
+			}
+		}
+		switch r.Intn(7) {
+		case 5, 6:
+			// exactly the publish time the server reported for a message the client
+			// has seen ("resume after the last one I processed")
+			if len(exact) > 0 {
+				t = exact[r.Intn(len(exact))]
+			} else {
+				t = g.instants[r.Intn(len(g.instants))]
+			}
 		case 0:
 			t = w.E.Epoch.Add(-time.Hour)
 		case 1:
